@@ -262,7 +262,7 @@ func RunCheck(verifDir, repoDir, prop, tier string, seed int64, only string, ver
 			Assertions: rep.Assertions, Queries: rep.Solver.Queries, Sat: rep.Solver.Sat, Unsat: rep.Solver.Unsat, Unknown: rep.Solver.Unknown,
 			SolverS: rep.Solver.Time.Seconds(), WallS: rep.Wall.Seconds(), Note: hs.Note,
 			Bounds: map[string]any{"preemptions": cfg.Preemptions, "unwind": cfg.Unwind, "max_depth": cfg.MaxDepth, "map_orders": cfg.MapOrders,
-				"adversarial_time": cfg.AdversarialTime, "params": cfg.Params, "hb_monitor": cfg.HB}}
+				"adversarial_time": cfg.AdversarialTime, "stalls": cfg.Stalls, "params": cfg.Params, "hb_monitor": cfg.HB}}
 		for k := range rep.Reached {
 			r.Reached = append(r.Reached, k)
 		}
